@@ -187,9 +187,11 @@ def signature(desc, res):
 
 
 def _sig_desc(desc):
+    """(signature, does the message show an id that actually changed) of a description, on the implementation"""
     try:
         h = simlib.run_history(desc, lambda s: None)
-        return signature(desc, dict(pred=_pred(desc, h)))
+        pred = _pred(desc, h)
+        return signature(desc, dict(pred=pred)), (" has id " in (pred or ""))
     except Exception:
         return None
 
@@ -213,7 +215,7 @@ def shrink(desc):
     if desc["parent"].get("smap") is not None:
         cands.append(dict(desc, parent=dict(desc["parent"], smap=None, tmap=None)))
     for c in cands:
-        if want is None or _sig_desc(c) == want:
+        if want is None or want[0] is None or _sig_desc(c) == want:
             yield c
 
 
